@@ -245,7 +245,7 @@ def r3b_crc_check_is_panic_free(cx):
     F = cx.F
     f = F.one(name="bases::block::assert_slice_crc")
     b = F.body(f)
-    idx = b.calls(r"slice::index::<impl std::ops::Index(Mut)?<.*> for \[.*\]>::index(_mut)?$|SliceIndex<\[.*\]>>::index(_mut)?$")
+    idx = b.calls(r"slice::index::<impl std::ops::Index(Mut)?<.*> for \[.*\]>::index(_mut)?$|SliceIndex<\[.*\]>>::index(_mut)?$", r"impl \[.*\]>::split_at(_mut)?$")
     if not idx:
         raise AnchorLost("assert_slice_crc: no slice indexing found")
     idx_blocks = {i for i, _ in idx}
